@@ -36,7 +36,10 @@ func ParseProgram(p *ParserZH) *syntax.Program {
 				hState = stateExecBlock
 			}
 		case stateExecBlock:
-			program.ExecBlock = ParseExecBlock(p, peekIndent)
+			// (the import section has just been left without consuming a token: what comes
+			// next may stand after a ； on the last line of an import whose item list
+			// continues on further lines - it belongs to the program all the same)
+			program.ExecBlock = parseExecBlockFrom(p, peekIndent, false)
 		}
 	})
 
@@ -1077,6 +1080,12 @@ func parseFunctionBlock(p *ParserZH) (*syntax.ID, *syntax.ExecBlock) {
 
 // ParseExecBlock - execBlock = inputStmt + stmtBlock + catchBlock
 func ParseExecBlock(p *ParserZH, mainIndent int) *syntax.ExecBlock {
+	return parseExecBlockFrom(p, mainIndent, true)
+}
+
+// parseExecBlockFrom - atLineStart: the block starts on a line of its own (false when the caller
+// has already accepted the next token as part of the enclosing block)
+func parseExecBlockFrom(p *ParserZH, mainIndent int, atLineStart bool) *syntax.ExecBlock {
 	execBlock := &syntax.ExecBlock{
 		InputBlock: []*syntax.ID{},
 		StmtBlock:  &syntax.StmtBlock{},
@@ -1093,7 +1102,7 @@ func ParseExecBlock(p *ParserZH, mainIndent int) *syntax.ExecBlock {
 	}
 
 	var hState = stateInputBlock
-	parseItemListBlock(p, mainIndent, func() {
+	parseItemListBlockFrom(p, mainIndent, atLineStart, func() {
 		switch hState {
 		case stateInputBlock:
 			if match, _ := p.tryConsume(TypeInputW); match {
@@ -1499,7 +1508,10 @@ func parsePauseCommaList(p *ParserZH, consumer consumerFunc) {
 }
 
 func parseItemListBlock(p *ParserZH, blockIndent int, consumer func()) {
-	first := true
+	parseItemListBlockFrom(p, blockIndent, true, consumer)
+}
+
+func parseItemListBlockFrom(p *ParserZH, blockIndent int, first bool, consumer func()) {
 	// an item belongs to the block when its line has the block's indentation - or when it
 	// does not begin a line at all: what follows a ； on the last line of an item that spans
 	// several lines (a bracket or a text continued on further lines, whatever their
